@@ -106,6 +106,16 @@ def _cases(rng, n):
         xs = rng.choice([xs, sorted(xs), sorted(xs, reverse=True), list(set(xs))])
         reqs.append(("t11_sorted", {"xs": xs})); want.append(sorted(xs))
     # --- end T11
+    # --- T12: itertools.groupby with the groups taken as lists (OQ.Py.groupby), int keys and Bool keys
+    import itertools
+    for _ in range(n // 2):
+        xs = [rng.randrange(-6, 7) for _ in range(rng.randrange(0, 9))]
+        m = rng.choice([1, 2, 3])
+        reqs.append(("t2_groupby", {"xs": xs, "m": m}))
+        want.append({"int": [[k, list(g)] for k, g in itertools.groupby(xs, lambda x: x % m)],
+                     "bool": [[k, list(g)] for k, g in itertools.groupby(xs, lambda x: x % 2 == 0)],
+                     "sorted": sorted(xs)})
+    # --- end T12
     return reqs, want
 
 
